@@ -39,55 +39,91 @@ def effect_free_variants(ctx, R, rid):
 
 
 def dup(R, ctx):
+    """remove_compound_assign as a transfer function: every effectful operand is evaluated once, in order (finite-domain evaluation)."""
+    from .. import peval
+    from ..peval import Enum, Struct, UNKNOWN, make
+    from .c17 import tags_in_order
     rid = "C06.dup"
     lib = ctx.lib
-    R.rule(rid, "in remove_compound_assign::Processor::replace_with every Expression variant classified as `no temporary needed` "
-                "(arm result None, or listed in a `matches!` guard) is a variant for which Evaluator::has_side_effects returns the "
-                "constant false; for prefixes only Identifier / parenthesised effect-free expressions are exempt")
-    free = effect_free_variants(ctx, R, rid)
-    fn = lib.fn("rules::remove_compound_assign::Processor::replace_with")
-    if free is None or not R.require(rid, "anchor:replace_with", fn is not None, "", "not found"):
+    R.rule(rid, "remove_compound_assignment's process_statement, evaluated from its typed tree on `x += V`, `<P>.f += V` and `<P>[I] += V` with "
+                "the prefix P ranging over every Prefix variant and every parenthesised Expression variant, and I, V over every Expression "
+                "variant: in the statement(s) written, every operand for which Evaluator::has_side_effects is not the constant false occurs "
+                "exactly once (no `t[f()] = t[f()] + 1`), and the operands are evaluated in the source order P, I, V")
+    N = "nodes::"
+    PREFIX, STMT, VAR = N + "expressions::prefix::Prefix", N + "statements::Statement", N + "variable::Variable"
+    IDX, FE, ID, PAR = N + "expressions::index::IndexExpression", N + "expressions::field::FieldExpression", N + "identifier::Identifier", N + "expressions::parenthese::ParentheseExpression"
+    PROC = "rules::remove_compound_assign::Processor"
+    fn = lib.fn("<%s as process::node_processor::NodeProcessor>::process_statement" % PROC)
+    hse = lib.fn("process::evaluator::Evaluator::has_side_effects")
+    st_adt = lib.adts.get(STMT)
+    ca = [f["tys"] for v in (st_adt["variants"] if st_adt else []) if v["name"] == "CompoundAssign" for f in v["fields"]]
+    if not R.require(rid, "anchor:replace_with", fn is not None and hse is not None and len(ca) == 1, "", "process_statement / has_side_effects / CompoundAssign not found"):
         return
-    body = thir.body_of(fn)
-    n = 0
-    # guards may be spelled inline (`matches!(..)`) or through a local predicate function: follow the calls made in arm guards
-    bodies = [body]
-    for mm in thir.walk(body):
-        if mm.get("k") == "Match":
-            for arm in mm["arms"]:
-                if "guard" in arm:
-                    for c in thir.fn_refs(arm["guard"]):
-                        q = lib.fn(callee_of(c) or "")
-                        if q is not None and thir.body_of(q) and not any(thir.body_of(q) is b_ for b_ in bodies):
-                            bodies.append(thir.body_of(q))
-    all_matches = [m for b_ in bodies for m in tables.matches_on(lib, b_, EXPR)]
-    distinct = set()
-    for m in all_matches:
-        tbl = tables.variant_table(lib, m, EXPR)
-        if len(m["arms"]) == 2 and {tables.classify_body(a["body"]) for a in m["arms"]} == {"true", "false"}:
-            # matches!(inner, A | B ..) guard: variants answering true are duplicated as they are
-            dupd = {v for v, rows in tbl.items() if any(c == "true" for c, g, _ in rows)}
-            label = "guard"
-        else:
-            dupd = {v for v, rows in tbl.items() if any(c == "None" and not g for c, g, _ in rows)}
-            label = "match"
-        if not dupd:
+    CA = ca[0]
+    COP = [f["tys"] for v in lib.adts[CA]["variants"] for f in v["fields"] if f["name"] == "operator"][0]
+    variants = [v["name"] for v in lib.adts[EXPR]["variants"]]
+
+    def effect_free(kind):
+        pe = peval.PEval(lib, ctx.an)
+        try:
+            return pe.call_fn(hse, [make(lib, "process::evaluator::Evaluator"), Enum(EXPR, kind, {"0": UNKNOWN})]) is False
+        except peval.OutOfFuel:
+            return False
+    free = {k for k in variants if effect_free(k)}
+    R.require(rid, "floor:effect-free", len(free) >= 6, ctx.where(hse), "constant-false variants of has_side_effects: %s" % sorted(free))
+
+    def tagged(kind, tag):
+        if kind == "Identifier":
+            return Enum(EXPR, kind, {"0": make(lib, ID, {"name": "n_" + tag, "#tag": tag})})
+        if kind == "Parenthese":
+            return Enum(EXPR, kind, {"0": make(lib, PAR, {"expression": Enum(EXPR, "Call", {"0": Struct("#payload", {"#tag": tag})})})})
+        return Enum(EXPR, kind, {"0": Struct("#payload", {"#tag": tag})})
+    prefixes = [("Identifier", lambda: Enum(PREFIX, "Identifier", {"0": make(lib, ID, {"name": "t", "#tag": "P"})}), True)]
+    for pv in [v["name"] for v in lib.adts[PREFIX]["variants"] if v["name"] not in ("Identifier", "Parenthese")]:
+        prefixes.append((pv, (lambda pv=pv: Enum(PREFIX, pv, {"0": Struct("#payload", {"#tag": "P"})})), False))
+    for k in variants:
+        prefixes.append(("(%s)" % k, (lambda k=k: Enum(PREFIX, "Parenthese", {"0": make(lib, PAR, {"expression": tagged(k, "P")})})), k in free))
+    dflt = lib.fn("<%s as core::default::Default>::default" % PROC)
+    bad, unk, n = [], [], 0
+
+    def run_(variable, operands):
+        st = Enum(STMT, "CompoundAssign", {"0": make(lib, CA, {"operator": Enum(COP, "Plus"), "variable": variable, "value": tagged("Call", "V")})})
+        pe = peval.PEval(lib, ctx.an)
+        try:
+            proc = pe.call_fn(dflt, []) if dflt is not None else make(lib, PROC)
+            pe.call_fn(fn, [proc, st])
+        except peval.OutOfFuel:
+            return None, ["no termination"]
+        return st, pe.unknown_reasons
+    cases = [("x += V", Enum(VAR, "Identifier", {"0": make(lib, ID, {"name": "x"})}), [])]
+    for label, build, pfree in prefixes:
+        cases.append(("%s.f += V" % label, Enum(VAR, "Field", {"0": make(lib, FE, {"prefix": build(), "field": make(lib, ID, {"name": "f"})})}), [("P", pfree)]))
+        for k in variants:
+            cases.append(("%s[%s] += V" % (label, k), Enum(VAR, "Index", {"0": make(lib, IDX, {"prefix": build(), "index": tagged(k, "I")})}), [("P", pfree), ("I", k in free)]))
+    for label, variable, operands in cases:
+        st, why = run_(variable, operands)
+        n += 1
+        if st is None or why:
+            unk.append((label, why[:1]))
             continue
-        for v in sorted(dupd):
-            n += 1
-            distinct.add((label, v))
-            R.ob(rid, "replace_with|%s@%s|%s" % (label, m.get("ln"), v), v in free, ctx.where(fn, m.get("ln")),
-                 "Expression::%s is duplicated without a temporary and %s" % (v, "is effect-free" if v in free else
-                                                                             "has_side_effects can be true for it: it is evaluated twice (`t[expr] += 1`)"))
-    R.require(rid, "floor:duplicated-variants", len(distinct) >= 10 and {l for l, v in distinct} == {"guard", "match"}, ctx.where(fn),
-              "%d (table, variant) pairs checked, %d distinct (guard tables and match tables both present)" % (n, len(distinct)))
-    for m in tables.matches_on(lib, body, PREFIX):
-        tbl = tables.variant_table(lib, m, PREFIX)
-        for v, rows in sorted(tbl.items()):
-            for c, g, arm in rows:
-                if c == "None" and not g:
-                    R.ob(rid, "replace_with|prefix@%s|%s" % (m.get("ln"), v), v == "Identifier", ctx.where(fn, m.get("ln")),
-                         "Prefix::%s duplicated without temporary" % v)
+        if isinstance(st, Enum) and st.variant == "CompoundAssign":
+            bad.append("`%s` is left as a compound assignment" % label)
+            continue
+        tags = tags_in_order(st)
+        effectful = [t for t, is_free in operands if not is_free] + ["V"]
+        order = [t for i, t in enumerate(tags) if t not in tags[:i] and t in effectful]
+        want_order = effectful
+        for t, is_free in operands + [("V", False)]:
+            c = tags.count(t)
+            if c == 0:
+                bad.append("`%s`: operand %s disappears from the lowered statement" % (label, t))
+            elif c > 1 and not is_free:
+                bad.append("`%s`: operand %s can have side effects and is evaluated %d times (`t[f()] = t[f()] + 1`)" % (label, t, c))
+        if order != want_order:
+            bad.append("`%s`: operands are evaluated in the order %s instead of %s" % (label, order, want_order))
+    R.require(rid, "floor:duplicated-variants", n >= 300, ctx.where(fn), "%d compound assignments evaluated" % n)
+    R.ob(rid, "replace_with|established", not unk, ctx.where(fn), "all %d shapes evaluate" % n if not unk else "not established: %s %s" % unk[0])
+    R.ob(rid, "replace_with|each-effectful-operand-once-in-order", not bad, ctx.where(fn), "all %d shapes" % n if not bad else "%s (%d shapes)" % (bad[0], len(bad)))
 
 
 def hoist(R, ctx):
